@@ -21,18 +21,19 @@ type finding struct {
 }
 
 const (
-	sigNullRows   = "field-filter|plain-selection|returns-rows-whose-selected-fields-are-all-null"
-	sigPrevLater  = "desc|fill(previous)|filled-from-the-later-bucket"
-	sigFillSplit  = "desc|bytime-fill-split-across-chunks|bucket-with-data-reported-as-empty"
-	sigPrevLeak   = "fill(previous)-split-across-chunks|empty-bucket-filled-with-another-value-than-the-previous-bucket's"
-	sigLimitCut   = "select-star|limit-smaller-than-series-count|rows-are-not-the-first-of-the-ordered-answer"
-	sigBTMEmpty   = "binary_tree_merge|query-spans-two-or-more-shards|empty-answer"
-	sigBTMPanic   = "binary_tree_merge|selector-over-two-or-more-shards|runtime panic: slice bounds out of range in the merge iterator"
-	sigMixedChunk = "mixed-layout|bytime-aggregate|inner-chunk-smaller-than-record"
-	sigMetaPrev   = "metamorphic-only|desc|fill(previous)|differs-from-the-ascending-answer-reversed"
+	sigNullRows    = "field-filter|plain-selection|returns-rows-whose-selected-fields-are-all-null"
+	sigPrevLater   = "desc|fill(previous)|filled-from-the-later-bucket"
+	sigFillSplit   = "desc|bytime-fill-split-across-chunks|bucket-with-data-reported-as-empty"
+	sigPrevLeak    = "fill(previous)-split-across-chunks|empty-bucket-filled-with-another-value-than-the-previous-bucket's"
+	sigPrevGroup   = "fill(previous)|empty-bucket-filled-with-a-value-of-the-previous-group"
+	sigLimitCut    = "select-star|limit-smaller-than-series-count|rows-are-not-the-first-of-the-ordered-answer"
+	sigBTMEmpty    = "binary_tree_merge|query-spans-two-or-more-shards|empty-answer"
+	sigBTMPanic    = "binary_tree_merge|selector-over-two-or-more-shards|runtime panic: slice bounds out of range in the merge iterator"
+	sigMixedChunk  = "mixed-layout|aggregate|inner-chunk-smaller-than-record"
+	sigMetaPrev    = "metamorphic-only|desc|fill(previous)|differs-from-the-ascending-answer-reversed"
 	sigMetaPhantom = "metamorphic-only|field-filter|aggregate|null-rows-of-phantom-windows-differ-between-cells"
-	sigMetaFill   = "metamorphic-only|bytime-fill-split-across-chunks|cells-differ"
-	sigPhantomAgg = "field-filter|aggregate|null-row-for-a-window-whose-passing-rows-have-no-value-of-the-aggregated-field"
+	sigMetaFill    = "metamorphic-only|bytime-fill-split-across-chunks|cells-differ"
+	sigPhantomAgg  = "field-filter|aggregate|null-row-for-a-window-whose-passing-rows-have-no-value-of-the-aggregated-field"
 )
 
 // bucketsInRange: number of GROUP BY time buckets of the query range.
@@ -61,21 +62,6 @@ func fillSplitPossible(q *querySpec, cl cell, nGroups int) bool {
 		return false
 	}
 	return nGroups*(q.bucketsInRange()+1) > 2*cl.Inner
-}
-
-// nullInPassingRows: some row passes the filter but has no value in the aggregated field
-// (the input class of the aggregate/filter defects: such rows become phantom windows).
-func nullInPassingRows(q *querySpec, rows []mrow) bool {
-	for i := range rows {
-		r := &rows[i]
-		if !q.inTime(r.t) || !evalPred(q.Where, r) {
-			continue
-		}
-		if _, ok := r.f[q.Field]; !ok {
-			return true
-		}
-	}
-	return false
 }
 
 func rowTime(row []any) (int64, bool) {
@@ -161,7 +147,7 @@ func attribute(q *querySpec, cl cell, rows []mrow, schema map[string]byte, obs *
 		}
 		return unexplained
 	}
-	if q.Interval > 0 && cl.Layout == "mixed" && cl.Inner < 1024 {
+	if (q.Interval > 0 || hasField) && cl.Layout == "mixed" && cl.Inner < 1024 {
 		return []finding{{sigMixedChunk, mm.String()}}
 	}
 	// row-level attribution against the expectation under the deterministic defect models
@@ -210,6 +196,12 @@ func attribute(q *querySpec, cl cell, rows []mrow, schema map[string]byte, obs *
 		if len(os.Rows) != len(es.Groups) {
 			return unexplained
 		}
+		var prevSeries *obsSeries
+		for i := range obs.Series {
+			if obs.Series[i].Key == es.Key && i > 0 {
+				prevSeries = &obs.Series[i-1]
+			}
+		}
 		phantomInSeries := false
 		for _, g := range es.Groups {
 			phantomInSeries = phantomInSeries || g.Phantom
@@ -239,13 +231,15 @@ func attribute(q *querySpec, cl cell, rows []mrow, schema map[string]byte, obs *
 				return unexplained
 			}
 			switch {
-			case cl.Desc && split && !g.Empty && isFillValue(q, ov, os, gi, es.Kinds[1]):
+			case cl.Desc && split && !g.Empty && (q.Fill == "previous" || isFillValue(q, ov, os, gi, es.Kinds[1])):
 				causes[sigFillSplit] = fmt.Sprintf("{%s} row %d: got %s, the bucket has data: %s", es.Key, gi, rowText(row), altsText(g.Alts, 1))
 			case hasField && g.Phantom && ov.Kind == 0:
 				causes[sigPhantomAgg] = fmt.Sprintf("{%s} row %d: got %s, admissible %s; rows that pass the filter but have no value of %s exist in this window", es.Key, gi, rowText(row), altsText(g.Alts, 1), q.Field)
 			case hasField && q.Fill == "previous" && g.Empty && phantomInSeries:
 				// the null of a phantom window is sometimes taken as the previous value, sometimes skipped
 				causes[sigPhantomAgg] = fmt.Sprintf("{%s} row %d: got %s, admissible %s; fill(previous) around a window whose passing rows have no value of %s", es.Key, gi, rowText(row), altsText(g.Alts, 1), q.Field)
+			case q.Fill == "previous" && g.Empty && ov.Kind != 0 && prevSeries != nil && valueInSeries(prevSeries, ov, es.Kinds[1]):
+				causes[sigPrevGroup] = fmt.Sprintf("{%s} row %d: got %s, admissible %s; the value occurs in the group before it {%s}", es.Key, gi, rowText(row), altsText(g.Alts, 1), prevSeries.Key)
 			case q.Fill == "previous" && split && g.Empty:
 				causes[sigPrevLeak] = fmt.Sprintf("{%s} row %d: got %s, admissible %s", es.Key, gi, rowText(row), altsText(g.Alts, 1))
 			case q.Fill == "previous" && g.Empty && !g.Leading && gi > 0 && sameCell(os.Rows[gi-1][1], row[1]) && len(causes) > 0:
@@ -403,4 +397,15 @@ func stripPhantom(q *querySpec, base *expected, obs *answer) (*answer, int) {
 		}
 	}
 	return out, n
+}
+
+func valueInSeries(s *obsSeries, v model.Value, kind byte) bool {
+	for _, row := range s.Rows {
+		if len(row) == 2 {
+			if pv, ok := parseCell(row[1], kind); ok && pv.Kind != 0 && valSame(pv, v, false) {
+				return true
+			}
+		}
+	}
+	return false
 }
